@@ -152,6 +152,12 @@ def build(case, route, croute, variant, ns):
             return al.Stream(container([float(fr(x)) / cl for x in a["s"]], croute))
         if variant % 2:
             tl(0.25, 1.5).take(3)      # the oscillator object has been used before: no trace in the next use
+        if variant % 4 == 3:
+            # ... and an oscillator that played another table before: it interpolates its CURRENT table
+            other = al.TableLookup([LinForm.sym(size - i) * 2 for i in range(size)], cycles)
+            other(0.25, 1.5).take(size + 2)
+            other.table = list(table)
+            tl = other
         return tl(conv(case["step"]), conv(case["part"]))
     if g == "rs":
         sig = container([LinForm.sym(i + 1) for i in range(case["len"])], croute)
